@@ -27,7 +27,9 @@ def gen(rng):
             "script": [rng.choice(["ok", "ok", "err"]) for _ in range(3)] + ["ok"], "flat": rng.random() < 0.3,
             # the FIRST calls of the bound callable / the first submits come from two threads at once (fault-free script then,
             # so that the two outcomes do not depend on which attempt of which call consumes which script entry)
-            "calls": rng.choice([1, 1, 1, 2, 2])}
+            "calls": rng.choice([1, 1, 1, 2, 2]),
+            # afterwards the whole chain is shut down and the same call is made once more: both forms refuse alike
+            "after_shutdown": rng.random() < 0.3}
 
 
 def apply_layer(x, layer, log, tag):
@@ -156,6 +158,20 @@ def execute(p, chooser):
                 for t in ts:
                     t.join()
                 obs["res"][tag] = (sorted(outs, key=repr), sorted((e[1:] for e in log), key=repr))
+            if p.get("after_shutdown"):
+                # the executor a bound callable submits to is its (name-mangled) private attribute: shut the SAME thing down in both forms
+                tgt = top if tag == "submit" else getattr(b, "_BoundCallable__executor", None)
+                if tgt is None:
+                    raise AssertionError("the bound callable has no _BoundCallable__executor")
+                tgt.shutdown(True)
+                try:
+                    f2 = call()
+                    late = ("returned", outcome(f2))
+                except BaseException as e:
+                    if isinstance(e, det.Abort):
+                        raise
+                    late = ("raised", type(e).__name__, str(e)[:60])
+                obs["res"][tag] = obs["res"][tag] + (late,)
             obs["names"][tag] = sorted(t.name for t in det.S.threads.values()
                                        if t.tid not in before and any(t.name.startswith(x) for x in THREAD_PREFIX.values()))
 
